@@ -191,7 +191,33 @@ def _mode_value(e):
     return None
 
 
-def make_atom_of(aliases, cls=frozenset()):
+def _named_conditions(fn):
+    """{local: expression} for locals assigned exactly once with a condition (comparison / and / or / not / call) over names that are never
+    reassigned themselves: `refuse = mode == "w" and not force_overwrite` names that condition"""
+    if fn is None:
+        return {}
+    assigned = {}
+    for n in walk_no_nested(fn):
+        tg = n.targets if isinstance(n, ast.Assign) else ([n.target] if isinstance(n, (ast.AugAssign, ast.AnnAssign)) else [])
+        for t in tg:
+            for x in ast.walk(t):
+                if isinstance(x, ast.Name):
+                    assigned.setdefault(x.id, []).append(n)
+        if isinstance(n, (ast.For, ast.With)):
+            for x in ast.walk(n.target if isinstance(n, ast.For) else ast.Tuple(elts=[i.optional_vars for i in n.items if i.optional_vars is not None], ctx=ast.Store())):
+                if isinstance(x, ast.Name):
+                    assigned.setdefault(x.id, []).append(n)
+    out = {}
+    for name, sts in assigned.items():
+        if len(sts) == 1 and isinstance(sts[0], ast.Assign) and len(sts[0].targets) == 1 and isinstance(sts[0].targets[0], ast.Name) and \
+                isinstance(sts[0].value, (ast.Compare, ast.BoolOp, ast.UnaryOp, ast.Call)):
+            used = {x.id for x in ast.walk(sts[0].value) if isinstance(x, ast.Name)}
+            if not any(u in assigned for u in used if u != name):
+                out[name] = sts[0].value
+    return out
+
+
+def make_atom_of(aliases, cls=frozenset(), fn=None):
     """atoms of the worlds; `exists` is a test of the user's path of class `cls` (the class of the path the destructive operation is given)"""
     def atom_of(e):
         if isinstance(e, ast.Name) and e.id == "force_overwrite":
@@ -204,6 +230,7 @@ def make_atom_of(aliases, cls=frozenset()):
         if v is not None:
             return ("mode", v)
         return None
+    atom_of.definitions = _named_conditions(fn)
     return atom_of
 
 
@@ -381,7 +408,7 @@ def check(ctx):
             # the guard must be a test of the very path this operation is given: exists(filename) says nothing about open(expanduser(filename))
             pcls = (_path_class(c[1], aliases) if c[1] is not None else None) or frozenset()
             if pcls not in W_of:
-                W_of[pcls] = cfg.worlds_at(make_atom_of(aliases, pcls), transfer=_transfer_factory(cfg))
+                W_of[pcls] = cfg.worlds_at(make_atom_of(aliases, pcls, fn), transfer=_transfer_factory(cfg))
             W = W_of[pcls]
             node = cfg.node_containing(n)
             if node is None:
@@ -429,7 +456,7 @@ def check(ctx):
         cfg = CFG(ctor.fn)
         aliases = _path_aliases(ctor.fn) or {"filename": frozenset()}
         used_cls = {aliases.get(x) for x in names_of(c[1]) if x.startswith("self.") and x in aliases} or {frozenset()}
-        W = cfg.worlds_at(make_atom_of(aliases, sorted(used_cls, key=sorted)[-1]), transfer=_transfer_factory(cfg))
+        W = cfg.worlds_at(make_atom_of(aliases, sorted(used_cls, key=sorted)[-1], ctor.fn), transfer=_transfer_factory(cfg))
         exitw = [dict(w) for w in W[cfg.exit] if _feasible(dict(w))]
         wr = [w for w in exitw if world_mode_is_write(w, ast.Name("mode"))]
         bad = [w for w in wr if not world_guarded(w)]
